@@ -161,7 +161,10 @@ def execute(spec, request, sched, opts=None, extra_callbacks=None, get_kwargs=No
 
 
 def _is_injected(e):
-    return bool(e.args) and isinstance(e.args[0], str) and e.args[0].startswith("injected")
+    try:
+        return "injected" in str(e)[:300]
+    except Exception:  # noqa: BLE001
+        return False
 
 
 # --------------------------------------------------------------------------
